@@ -40,6 +40,7 @@ CONSTS = {"CHUNK_ALIGN", "FOOTER_SIZE", "OVERHEAD", "TYPICAL_PAGE_SIZE", "DEFAUL
 NAT, BOOL, UNIT, LAYOUT, DETAILS, CHUNK, ORD, BUMP = "nat", "bool", "unit", "layout", "details", "chunk", "ordering", "bump"
 RAWVEC, RERR, STRATEGY, FALLIB = "rawvec", "rerr", "strategy", "fallibility"
 CHUNKLIST, CELLPREV = "chunklist", "cellprev"
+ELEM, SLOT, VECSELF = "elem", "slot", "vecself"
 
 
 def res2(t): return ("res2", t)
@@ -64,6 +65,8 @@ def lean_ty(t):
     if t == RERR: return "V.RErr"
     if t == CHUNKLIST: return "(List Chunk)"
     if t == STRATEGY: return "Rs.Strategy"
+    if t == ELEM: return "V.Elem"
+    if t == SLOT: return "Nat"
     if t == FALLIB: return "Rs.Fallibility"
     if isinstance(t, tuple) and t[0] == "tuple": return "(" + " × ".join(lean_ty(x) for x in t[1]) + ")"
     if t == "selfstruct": raise Untranslatable("the receiver struct is not a value")
@@ -75,6 +78,7 @@ def rust_ty(text):
     t = re.sub(r"^&('\w+)?(mut)?", "", t)
     if t in ("usize", "*mutu8", "*constu8", "NonNull<u8>", "*mutT", "*constT", "NonNull<T>"): return NAT
     if t == "bool": return BOOL
+    if t == "T": return ELEM
     if t in ("()", ""): return UNIT
     if t == "Layout": return LAYOUT
     if t == "NewChunkMemoryDetails": return DETAILS
@@ -165,6 +169,23 @@ FUNCS += [
     Fn("try_reserve", "rawvec", "st", file="src/collections/raw_vec.rs", group="RawVec", lean="rv_try_reserve"),
     Fn("reserve", "rawvec", "st", file="src/collections/raw_vec.rs", group="RawVec", lean="rv_reserve"),
 ]
+VEC_RS = "src/collections/vec.rs"
+VEC_IMPL = "impl<'bump, T: 'bump> Vec<'bump, T> {"
+FUNCS += [
+    Fn("len", "vec", "read", file=VEC_RS, group="Vec", anchor=VEC_IMPL, lean="vec_len"),
+    Fn("capacity", "vec", "read", file=VEC_RS, group="Vec", anchor=VEC_IMPL, lean="vec_capacity"),
+    Fn("is_empty", "vec", "read", file=VEC_RS, group="Vec", anchor=VEC_IMPL, lean="vec_is_empty"),
+    Fn("set_len", "vec", "st", file=VEC_RS, group="Vec", anchor=VEC_IMPL, lean="vec_set_len"),
+    Fn("reserve", "vec", "st", file=VEC_RS, group="Vec", anchor=VEC_IMPL, lean="vec_reserve"),
+    Fn("reserve_exact", "vec", "st", file=VEC_RS, group="Vec", anchor=VEC_IMPL, lean="vec_reserve_exact"),
+    Fn("try_reserve", "vec", "st", file=VEC_RS, group="Vec", anchor=VEC_IMPL, lean="vec_try_reserve"),
+    Fn("try_reserve_exact", "vec", "st", file=VEC_RS, group="Vec", anchor=VEC_IMPL, lean="vec_try_reserve_exact"),
+    Fn("push", "vec", "st", file=VEC_RS, group="Vec", anchor=VEC_IMPL, lean="vec_push"),
+    Fn("pop", "vec", "st", file=VEC_RS, group="Vec", anchor=VEC_IMPL, lean="vec_pop"),
+    Fn("insert", "vec", "st", file=VEC_RS, group="Vec", anchor=VEC_IMPL, lean="vec_insert"),
+    Fn("remove", "vec", "st", file=VEC_RS, group="Vec", anchor=VEC_IMPL, lean="vec_remove"),
+    Fn("swap_remove", "vec", "st", file=VEC_RS, group="Vec", anchor=VEC_IMPL, lean="vec_swap_remove"),
+]
 FN = {f.name: f for f in FUNCS}
 # names that exist on several receivers: the table is per receiver kind
 FN_BY_KIND = {}
@@ -185,13 +206,25 @@ EXTERNAL_RV = {
 
 class Env:
     """rust variable -> (lean name, type); `scope` lists every Lean binder visible on the current lexical path"""
-    def __init__(self, d=None, used=None, scope=None):
+    def __init__(self, d=None, used=None, scope=None, owned=None):
         self.d = dict(d or {})
         self.used = used if used is not None else set()
         self.scope = list(scope or [])
+        # lean names of the locals that currently own a value of the element type (dropped when the frame unwinds)
+        self.owned = list(owned or [])
 
     def copy(self):
-        return Env(self.d, self.used, self.scope)
+        return Env(self.d, self.used, self.scope, self.owned)
+
+    def own(self, ln):
+        e = self.copy()
+        e.owned.append(ln)
+        return e
+
+    def disown(self, ln):
+        e = self.copy()
+        e.owned = [x for x in e.owned if x != ln]
+        return e
 
     def fresh(self, name):
         name = name.replace("self.", "self_")
@@ -211,7 +244,7 @@ class Env:
 
     def restrict_to(self, outer):
         """leave an inner scope: keep the current bindings of the variables the outer scope knows"""
-        e = Env({k: self.d[k] for k in outer.d if k in self.d}, self.used, self.scope)
+        e = Env({k: self.d[k] for k in outer.d if k in self.d}, self.used, self.scope, self.owned)
         return e
 
 
@@ -246,9 +279,11 @@ class Tr:
         # the threaded state: the arena model's `s : St`, or for RawVec methods the vector `v : V.VS`
         if fn.kind == "rawvec":
             self.sv, self.sty, self.bindS, self.pureS = "v", "V.VS", "RsV.bindV", "RsV.pureV"
+        elif fn.kind == "vec":
+            self.sv, self.sty, self.bindS, self.pureS = "s", "RsM.VW", "RsM.bindW", "RsM.pureW"
         else:
             self.sv, self.sty, self.bindS, self.pureS = "s", "St", "bindO", "pureO"
-        if fn.kind == "rawvec":
+        if fn.kind in ("rawvec", "vec"):
             self.lead, self.lead_names = ["(c : V.Cfg)"], ["c"]
         elif fn.kind in ("bump", "chunk", "assocst", "iter"):
             self.lead, self.lead_names = ["(E M : Nat)"], ["E", "M"]
@@ -271,7 +306,19 @@ class Tr:
     def bad(self, why):
         return self.wrap(f'Outcome.bad "{self.fn.name}: {why}"')
 
-    def panic(self):
+    def cleanup(self, env):
+        """the frame's drop glue as a function of the state (None when the frame owns nothing)"""
+        if env is None or not env.owned:
+            return None
+        t = self.sv
+        for ln in reversed(env.owned):     # newest first
+            t = f"(RsM.drop_elem c {ln} {t})"
+        return t
+
+    def panic(self, env=None):
+        cl = self.cleanup(env)
+        if cl is not None:
+            return f"({cl}, Outcome.panic)"
         return self.wrap("Outcome.panic")
 
     def RET(self, term, ty, env):
@@ -287,6 +334,15 @@ class Tr:
             return f"(match {term} with | some v_ => {self.wrap('Outcome.ok v_')} | none => {self.wrap('Outcome.err')})"
         if ty == "never":
             return term
+        if self.fn.kind == "vec" and ty == ELEM:
+            return f"(RsM.moved {term} {self.sv}, Outcome.ok {term})"
+        if self.fn.kind == "vec" and ty == opt(ELEM):
+            m = re.fullmatch(r"\(some (.*)\)", term)
+            if m and balanced(m.group(1)):
+                return f"(RsM.moved {paren(m.group(1))} {self.sv}, Outcome.ok {term})"
+            if term == "none":
+                return self.wrap("Outcome.ok none")
+            return f"(match {term} with | some e_ => (RsM.moved e_ {self.sv}, Outcome.ok (some e_)) | none => {self.wrap('Outcome.ok none')})"
         if self.fn.self_fields and not self.in_closure:
             finals = [env.d["self." + f][0] for f, _ in self.fn.self_fields]
             return self.wrap(f"Outcome.ok ({term}, {', '.join(finals)})")
@@ -299,10 +355,15 @@ class Tr:
             raise Untranslatable(f"return of {term} : {ty} from a function returning Result<_, CollectionAllocErr>")
         return self.wrap(f"Outcome.ok {term}")
 
-    def bind_call(self, call, callee_mode, k, env, ty, footers=True):
+    def bind_call(self, call, callee_mode, k, env, ty, footers=True, nopanic=False):
         """call = lean application without the state argument; result bound to a fresh name.
         footers=False: a primitive that changes no footer field (global allocator call, memory copy)"""
         env2, v = env.bind("r", ty)
+        cl = None if nopanic or callee_mode != "st" else self.cleanup(env)
+        if cl is not None:
+            self.bump_version()
+            body = k(v, ty, env2)
+            return f"(RsM.bindU ({call} {self.sv}) (fun {self.sv} => {cl}) fun {self.sv} {v} =>\n{body})"
         if callee_mode == "st" and footers:
             self.bump_version()
         if ty == CHUNK:
@@ -320,8 +381,8 @@ class Tr:
         self.version = self.next_version
         self.next_version += 1
 
-    def check(self, cond, why, rest, asserting=False):
-        return f"(if {cond} then\n{rest}\nelse {self.panic() if asserting else self.bad(why)})"
+    def check(self, cond, why, rest, asserting=False, env=None):
+        return f"(if {cond} then\n{rest}\nelse {self.panic(env) if asserting else self.bad(why)})"
 
     # ---- join points ---------------------------------------------------------------------------------------
     def join(self, k, ty, env, mutated, nbranches):
@@ -389,6 +450,8 @@ class Tr:
                     return "self", "selfstruct"
                 if self.fn.kind == "rawvec":
                     return "v", RAWVEC
+                if self.fn.kind == "vec":
+                    return "self", VECSELF
                 return "self", BUMP if self.fn.kind != "chunk" else CHUNK
             if self.fn.file.endswith("raw_vec.rs") and len(segs) == 1:
                 table = {"CapacityOverflow": ("V.RErr.capOverflow", RERR), "Exact": ("Rs.Strategy.exact", STRATEGY),
@@ -474,6 +537,8 @@ class Tr:
                 return None
             if ty == "static" and f == "0": return t, CHUNK
             if ty == RAWVEC and f == "cap": return f"{paren(t)}.cap", NAT
+            if ty == VECSELF and f == "len": return f"{self.sv}.1.len", NAT
+            if ty == VECSELF and f == "buf": return f"{self.sv}.1", RAWVEC
             if ty == "selfstruct" and ("self." + f) in env.d: return env.d["self." + f]
             if isinstance(ty, tuple) and ty[0] == "tuple" and f in ("0", "1"):
                 return f"{paren(t)}.{int(f) + 1}", ty[1][int(f)]
@@ -488,12 +553,27 @@ class Tr:
                 if cb is not None and cb[1] == RERR:
                     return f"(Rs.okOr {t} {cb[0]})", res2(ty[1])
                 return t, res(ty[1])
+            if ty == SLOT and name == "offset" and len(args) == 1:
+                a = args[0]
+                if a[0] == "int":
+                    return f"({t} + {a[1]})", SLOT
+                if a[0] == "un" and a[1] == "-" and a[2][0] == "int":
+                    return f"({t} - {a[2][1]})", SLOT
+                return None
             pa = [self.pure(a, env) for a in args]
             if any(x is None for x in pa): return None
             if isinstance(ty, tuple) and ty[0] == "cell" and name == "get" and not args:
                 return t, ty[1]
             if ty == CELLPREV and name == "get" and not args:
                 return f"(Rs.chunk_prev E {self.sv} {paren(t)})", CHUNK
+            if ty == VECSELF and name in ("as_ptr", "as_mut_ptr") and not args:
+                return "0", SLOT       # a pointer into the buffer is the index of the slot it points at
+            if ty == RAWVEC and name == "ptr" and not args and self.fn.kind == "vec":
+                return "0", SLOT
+            if ty == VECSELF and name in ("get_unchecked", "get_unchecked_mut") and len(pa) == 1 and pa[0][1] == NAT:
+                return pa[0][0], SLOT
+            if ty == SLOT and name == "add" and len(pa) == 1 and pa[0][1] == NAT:
+                return (pa[0][0] if t == "0" else f"({t} + {pa[0][0]})"), SLOT
             if ty in (NAT, CHUNK) and name in ("as_ptr", "as_ref", "as_mut", "get", "as_non_null_ptr") and not args:
                 return t, ty
             if ty == CHUNK and name == "cast" and not args:
@@ -750,6 +830,13 @@ class Tr:
                     raise Untranslatable(f"field .{e[2]} of {ty}")
                 return k(pp[0], pp[1], env_)
             return self.E(e[1], env, K(kf))
+        if kind == "index" and self.fn.kind == "vec" and e[1] == ("path", ["self"]):
+            # `self[i]` / `&mut self[i]`: the slice bounds check, then a pointer to slot i
+            def kix(t, ty, env_):
+                if ty != NAT:
+                    raise Untranslatable(f"index of type {ty}")
+                return self.check(f"decide ({t} < {self.sv}.1.len)", "index", k(t, SLOT, env_), asserting=True, env=env_)
+            return self.E(e[2], env, K(kix))
         if kind == "struct":
             # evaluate fields left to right
             fs = e[2]
@@ -866,11 +953,11 @@ class Tr:
         if name in ("debug_assert", "assert"):
             if len(args) == 1 and args[0] == ("bool", False):
                 return self.bad("debug_assert!(false)") if name == "debug_assert" else self.panic()
-            return self.E(args[0], env, K(lambda t, ty, env_: self.check(t, f"{name}!", k("()", UNIT, env_), asserting=(name == "assert"))))
+            return self.E(args[0], env, K(lambda t, ty, env_: self.check(t, f"{name}!", k("()", UNIT, env_), asserting=(name == "assert"), env=env_)))
         if name in ("debug_assert_eq", "assert_eq", "debug_assert_ne", "assert_ne"):
             op = "==" if name.endswith("eq") else "!="
             return self.E(("bin", op, args[0], args[1]), env,
-                          K(lambda t, ty, env_: self.check(t, f"{name}!", k("()", UNIT, env_), asserting=name.startswith("assert"))))
+                          K(lambda t, ty, env_: self.check(t, f"{name}!", k("()", UNIT, env_), asserting=name.startswith("assert"), env=env_)))
         if name in ("panic", "unreachable", "unimplemented", "todo"):
             return self.panic()
         if name == "matches":
@@ -904,6 +991,22 @@ class Tr:
                            Env({f"__a{i}": pa[i] for i in range(len(pa))}))
             if pp is not None:
                 return k(pp[0], pp[1], env_)
+            if self.fn.kind == "vec" and segs[-2:] == ["ptr", "write"] and len(pa) == 2 and pa[0][1] == SLOT and pa[1][1] == ELEM:
+                return self.bind_call(f"RsM.write c {sp(pa)}", "st", k, env_.disown(pa[1][0]), UNIT, nopanic=True)
+            if self.fn.kind == "vec" and segs[-2:] == ["ptr", "read"] and len(pa) == 1 and pa[0][1] == SLOT:
+                e2, ln = env_.bind("x", ELEM)
+                return (f"(match RsM.read {paren(pa[0][0])} {self.sv} with\n| none => {self.bad('read of an uninitialised slot')}\n"
+                        f"| some {ln} =>\n{k(ln, ELEM, e2.own(ln))})")
+            if self.fn.kind == "vec" and segs[-2:] == ["ptr", "replace"] and len(pa) == 2 and pa[0][1] == SLOT and pa[1][1] == ELEM:
+                e2, ln = env_.bind("old", ELEM)
+                e3 = e2.disown(pa[1][0]).own(ln)
+                inner = self.bind_call(f"RsM.write c {sp(pa)}", "st", K(lambda t_, ty_, e4: k(ln, ELEM, e4)), e3, UNIT, nopanic=True)
+                return (f"(match RsM.read {paren(pa[0][0])} {self.sv} with\n| none => {self.bad('read of an uninitialised slot')}\n"
+                        f"| some {ln} =>\n{inner})")
+            if self.fn.kind == "vec" and segs[-2:] == ["ptr", "copy"] and len(pa) == 3 and pa[0][1] == SLOT and pa[1][1] == SLOT:
+                return self.bind_call(f"RsM.copy c {sp(pa)}", "st", k, env_, UNIT, nopanic=True)
+            if self.fn.kind == "vec" and segs[-2:] == ["ptr", "drop_in_place"] and len(pa) == 1 and pa[0][1] == SLOT:
+                return self.bind_call(f'RsM.drop_in_place c "{self.fn.name}: drop of an uninitialised slot" {sp(pa)}', "st", k, env_, UNIT)
             if segs[-2:] == ["ptr", "copy_nonoverlapping"] and len(pa) == 3:
                 return self.bind_call(f"Rs.copy_nonoverlapping {sp(pa)}", "st", k, env_, UNIT, footers=False)
             if segs == ["dealloc_chunk_list"] and len(pa) == 1 and pa[0][1] == CHUNKLIST:
@@ -928,7 +1031,7 @@ class Tr:
             raise Untranslatable(f"{g.name} is called but could not be translated itself")
         rty = rust_ty(g.sig["ret"])
         lead = []
-        if g.kind == "rawvec":
+        if g.kind in ("rawvec", "vec"):
             lead = ["c"]
         elif g.kind in ("bump", "chunk", "assocst", "iter"):
             lead = ["E", "M"]
@@ -1040,6 +1143,19 @@ class Tr:
             if name in EXTERNAL_RV:
                 lf, mode, rty = EXTERNAL_RV[name]
                 return self.args(args, env, lambda pa, env_: self.bind_call(f"{lf} c {sp(pa)}", mode, k, env_, rty))
+        if recv == ("path", ["self"]) and self.fn.kind == "vec" and ("vec", name) in FN_BY_KIND:
+            return self.args(args, env, lambda pa, env_: self.call_fn(FN_BY_KIND[("vec", name)], None, pa, env_, k))
+        if recv == ("field", ("path", ["self"]), "buf") and self.fn.kind == "vec" and ("rawvec", name) in FN_BY_KIND:
+            g = FN_BY_KIND[("rawvec", name)]
+            if g.sig is None:
+                raise Untranslatable(f"RawVec::{name} is called but could not be translated itself")
+            rty = rust_ty(g.sig["ret"])
+
+            def kbuf(pa, env_):
+                if g.mode == "read":
+                    return self.bind_call(f"Gen.Fn.{g.lean} c {sp(pa)} {self.sv}.1".replace("  ", " "), "pure", k, env_, rty)
+                return self.bind_call(f"RsM.liftV (Gen.Fn.{g.lean} c {sp(pa)})", "st", k, env_, rty)
+            return self.args(args, env, kbuf)
         # methods on self (the arena)
         if recv == ("path", ["self"]) and self.fn.kind == "bump":
             if name in EXTERNAL:
@@ -1135,7 +1251,12 @@ class Tr:
             if st[0] == "let":
                 pat, init = st[1], st[2]
                 if init is None:
-                    raise Untranslatable("let without initialiser")
+                    if pat[0] != "pid":
+                        raise Untranslatable("let without initialiser")
+                    # declared now, initialised by a later assignment (which rebinds the name)
+                    e3 = env_.copy()
+                    e3.d[pat[1]] = ("_uninit_", ("uninit",))
+                    return go(i + 1, e3)
                 if pat[0] == "pid" and init[0] == "call" and init[1] == ("path", ["iter", "from_fn"]) and len(init[2]) == 1 \
                         and init[2][0][0] == "closure" and not init[2][0][1]:
                     # a lazy generator: nothing happens until `.next()` is called on it (see LOOP)
@@ -1182,6 +1303,10 @@ class Tr:
                             self.chunk_ver[ln] = self.version
                         return f"let {ln} := {t};\n{go(i + 1, e3)}"
                     return self.E(rhs, env_, K(kself))
+                if lhs == ("field", ("path", ["self"]), "len") and self.fn.kind == "vec":
+                    val = rhs if op == "=" else ("bin", op[:-1], lhs, rhs)
+                    return self.E(val, env_, K(lambda tv, tyv, e3: self.bind_call(
+                        f"RsM.set_len {paren(tv)}", "st", K(lambda t_, ty_, e4: go(i + 1, e4)), e3, UNIT, nopanic=True)))
                 if lhs[0] == "field" and lhs[2] == "allocated_bytes" and op == "=":
                     def kc(tc, tyc, e2):
                         if tyc != CHUNK:
@@ -1233,6 +1358,8 @@ class Tr:
                 continue
             ty = rust_ty(t)
             env, ln = env.bind(n, ty)
+            if ty == ELEM and self.fn.kind == "vec":
+                env = env.own(ln)
             params.append(f"({ln} : {lean_ty(ty)})")
         if self.mode in ("read", "st"):
             params.append(f"({self.sv} : {self.sty})")
@@ -1377,17 +1504,17 @@ def translate_all(repo):
             f.sig = sig
             text = Tr(f, sig, body).function()
             groups.setdefault(f.group, []).append((f, text, None))
-            report[f.name] = "ok"
+            report[f.lean] = "ok"
         except (ParseError, Untranslatable, KeyError, IndexError) as ex:
             f.sig = None
             groups.setdefault(f.group, []).append((f, None, f"{type(ex).__name__}: {ex}"))
-            report[f.name] = f"untranslatable: {type(ex).__name__}: {ex}"
+            report[f.lean] = f"untranslatable: {type(ex).__name__}: {ex}"
     return groups, report
 
 
 GROUP_IMPORTS = {"Arith": [], "Details": ["Arith"], "Bytes": ["Arith"], "Limit": ["Arith", "Bytes"], "Footer": ["Arith"], "Fast": ["Arith", "Footer"],
-                 "Realloc": ["Arith", "Fast", "Footer", "Limit"], "RawVec": [], "Reset": ["Arith", "Footer"], "Rewind": ["Arith", "Footer", "Limit", "Fast", "Realloc"], "NewChunk": ["Arith"], "Iter": ["Arith", "Footer"], "Ctor": ["Arith", "Details", "NewChunk"], "Slow": ["Arith", "Details", "Bytes", "Limit", "Footer", "Fast", "NewChunk"]}
-GROUP_PRELUDE = {"RawVec": "BumpVerif.Model.RsVec"}
+                 "Realloc": ["Arith", "Fast", "Footer", "Limit"], "RawVec": [], "Vec": ["RawVec"], "Reset": ["Arith", "Footer"], "Rewind": ["Arith", "Footer", "Limit", "Fast", "Realloc"], "NewChunk": ["Arith"], "Iter": ["Arith", "Footer"], "Ctor": ["Arith", "Details", "NewChunk"], "Slow": ["Arith", "Details", "Bytes", "Limit", "Footer", "Fast", "NewChunk"]}
+GROUP_PRELUDE = {"RawVec": "BumpVerif.Model.RsVec", "Vec": "BumpVerif.Model.RsVecM"}
 
 
 def run(repo, out_dir, write_if_changed):
